@@ -66,3 +66,51 @@ func checkReadAhead(p *load.Program, r *kit.Report, rule string) {
 	}
 	r.OK(rule, "read-ahead/none-in-node-package", "-", "%d functions of the node package scanned; positive control matched in a dependency", n)
 }
+
+// checkSingleWriter: only the sender thread (BitcoinNode.sendOutgoing) writes to the connection.
+// wire.WriteMessageN emits a message as several Write calls; a second writer (a handler replying
+// "right away") interleaves its bytes with a message the sender thread is in the middle of, and the
+// peer reads garbage instead of the reply.
+func checkSingleWriter(p *load.Program, r *kit.Report, rule string) {
+	connF := p.Field(R, "BitcoinNode", "connection")
+	k := newKeyer()
+	n := 0
+	for _, f := range pkgFuncs(p, R) {
+		file := p.FileOf(f.Pos())
+		if strings.HasSuffix(file, "_test.go") || strings.HasSuffix(file, "test_nodes.go") {
+			continue
+		}
+		kit.AllInstrs(f, func(in ssa.Instruction) {
+			c, ok := in.(ssa.CallInstruction)
+			if !ok {
+				return
+			}
+			com := c.Common()
+			isWrite := false
+			var target ssa.Value
+			if id := kit.CallID(c); strings.HasPrefix(id, load.WirePkg+".WriteMessage") && len(com.Args) > 0 {
+				isWrite, target = true, com.Args[0]
+			}
+			if com.IsInvoke() && (com.Method.Name() == "Write" || com.Method.Name() == "ReadFrom") && strings.HasSuffix(com.Value.Type().String(), "net.Conn") {
+				isWrite, target = true, com.Value
+			}
+			if !isWrite {
+				return
+			}
+			// only writes whose target is (derived from) the node's connection
+			if !kit.DependsOn(target, func(v ssa.Value) bool { return loadOfField(v, connF) }) && !strings.HasSuffix(kit.Strip(target).Type().String(), "net.Conn") {
+				return
+			}
+			n++
+			name := kit.ShortID(kit.FuncID(f))
+			if kit.FuncID(f) == R+".BitcoinNode.sendOutgoing" {
+				r.OK(rule, k.key(name+"/writes-connection"), posOf(p, in), "the sender thread writes the queued messages")
+			} else {
+				r.Bad(rule, k.key(name+"/writes-connection"), posOf(p, in), "%s writes to the connection outside the sender thread: its bytes can land inside a message sendOutgoing is writing (a message is several Write calls), so the peer no longer receives a well-formed reply", name)
+			}
+		})
+	}
+	if n == 0 {
+		r.Unknown(rule, "connection/writers", "-", "no write to the connection found")
+	}
+}
